@@ -81,6 +81,7 @@ type State struct {
 	cells  map[*ssa.Alloc]Val
 	ver    map[string]string // heap family -> current SMT function symbol
 	epoch  int               // bumped by havoc-all; version-0 symbols carry it
+	gepoch int               // generation of the modelled stores / ghost variables (bumped by 'modifies *' contracts)
 	pc     []string          // assumptions
 	prev   *ssa.BasicBlock
 	seenFn map[int]string // iterator id -> current "seen" predicate symbol
@@ -110,6 +111,7 @@ func (s *State) clone() *State {
 		n.seenFn[k] = v
 	}
 	n.epoch = s.epoch
+	n.gepoch = s.gepoch
 	n.pc = append([]string{}, s.pc...)
 	n.prev = s.prev
 	n.defers = append([]deferred{}, s.defers...)
@@ -340,6 +342,11 @@ func (e *Exec) famDecl(fam string, args []string, res string) {
 
 func isGhostFam(fam string) bool { return strings.HasPrefix(fam, "$") }
 
+// the modelled stores (go-memdb tables, btrees) and ghost variables
+func storeGhostFam(fam string) bool {
+	return strings.HasPrefix(fam, "$db.") || strings.HasPrefix(fam, "$g.") || strings.HasPrefix(fam, "$bt.")
+}
+
 func (e *Exec) stableFam(fam string) bool {
 	for _, p := range e.stablePrefixes {
 		if fam == p || strings.HasPrefix(fam, p+".") {
@@ -360,6 +367,10 @@ func (e *Exec) cur(s *State, fam string, args []string, res string) string {
 		ep = 0 // ghost families and families of stable types are never havocked by unknown calls
 	}
 	name := fmt.Sprintf("|%s@e%d|", fam, ep)
+	if s.gepoch > 0 && storeGhostFam(fam) {
+		// ... but a contract that says 'modifies *' starts a new generation of the modelled stores and ghost variables
+		name = fmt.Sprintf("|%s@g%d|", fam, s.gepoch)
+	}
 	if !e.declSet[fmt.Sprintf("(declare-fun %s (%s) %s)", name, strings.Join(args, " "), res)] {
 		e.decl(fmt.Sprintf("(declare-fun %s (%s) %s)", name, strings.Join(args, " "), res))
 		// nil maps are empty; null counts as allocated (so frames and heap invariants cover it)
